@@ -76,7 +76,7 @@ EXPECTED_BRANCHES = [
     "series.sigma_none", "series.sigma_zero", "series.sigma_pos", "series.per_point", "series.already_sampled",
     "sets.parset", "sets.progset", "sets.progset_interactions", "sets.library_book",
     "sched.serial", "sched.parallel.multi_worker", "sched.parallel.one_worker", "sched.ensemble.parallel", "sched.ensemble.serial",
-    "sched.retry", "sched.exhausted", "sched.zero_sigma", "sched.one_uncertain", "sched.progset", "sched.multi_instructions",
+    "sched.retry", "sched.exhausted", "sched.zero_sigma", "sched.saved_initialization", "sched.one_uncertain", "sched.progset", "sched.multi_instructions",
 ]
 
 TOL = 4.5e-16  # two roundings (sigma*z, v+delta) relative to max(|v|, |sigma*z|, |result|)
@@ -779,6 +779,10 @@ def sched_child(cfg):
     if pg is not None:
         for c in pg.covouts.values():
             unc.extend([bool(c.sigma)] * (len(c.progs) + len(pr.covout_interactions(c))))
+    if cfg.get("saved_init"):
+        # the parameter set carries a saved initialization (compartment sizes taken from a previous run): it is part of the inputs every sampled run must share
+        r0 = at.Project.run_sim(P, ps)
+        ps.set_initialization(r0, year=float(r0.t[len(r0.t) // 2]))
     s0, g0 = snap(ps), snap(pg)
     n, mx = cfg["n"], cfg["max_attempts"]
     # unsampled run(s) for the sigma = 0 / None comparison
@@ -919,7 +923,8 @@ def gen_sched_cfgs(ctx):
     for rep in range(ctx.n(1, 6)):
         for par in (False, True):
             for pgs in (False, True):
-                cfg(proj=r.choice(small), sigma_mode=r.choice(["zero", "none"]), parallel=par, nw=2 if par else None, n=r.choice([2, 3]), progset=pgs, n_instr=2 if pgs else 1, entry=r.choice(["rss", "ens"]) if not par else "rss")
+                cfg(proj=r.choice(small), sigma_mode=r.choice(["zero", "none"]), parallel=par, nw=2 if par else None, n=r.choice([2, 3]), progset=pgs, n_instr=2 if pgs else 1, entry=r.choice(["rss", "ens"]) if not par else "rss",
+                    saved_init=not pgs)
     # program books with explicit interactions in a full sampled run
     for rep in range(ctx.n(3, 16)):
         cfg(proj=r.choice(["tb_simple", "udt", "hiv"]), progset=True, interactions=True, n=r.choice([2, 3]), sigma_mode=r.choice(["all", "mixed"]), parallel=r.random() < 0.4, nw=2)
@@ -997,6 +1002,8 @@ def analyse(ctx, cfg, out, retry_rep, sched_reps):
         ctx.count("sched.multi_instructions")
     if cfg.get("interactions"):
         ctx.count("sched.interactions_run")
+    if cfg.get("saved_init"):
+        ctx.count("sched.saved_initialization")
     ctx.case({"cfg": cfg, "slots": slots}, nontrivial=uncertain and n >= 2 and (multi or retried or not cfg["parallel"]))
     ctx.traces += 1
     # ---- results of one sample must share one draw of the inputs; one result per instruction
